@@ -41,6 +41,46 @@ class Family:
         return self.m.Ty(*[self.ob(o) for o in spec])
 
     watch = None     # optional callable(what, value) -> value, sees every sub-result of `run`
+    problems = None  # optional list: (signature, text) for every accepted ill-typed composition
+
+    def nary(self, op, form, recv, args):
+        """`recv.then(*args)` / `recv.tensor(*args)` in one of the calling forms of the library:
+        bound method, the function of the receiver's class, the function of the family's Diagram
+        class, or (one argument only) the operators `>>`, `<<`, `@`."""
+        m = self.m
+        if form == "method":
+            return getattr(recv, op)(*args)
+        if form == "class":
+            return getattr(type(recv), op)(recv, *args)
+        if form == "base":
+            return getattr(m.Diagram, op)(recv, *args)
+        if form == "op":
+            return recv >> args[0] if op == "then" else recv @ args[0]
+        if form == "rop":           # a << b is b.then(a)
+            return args[0] << recv
+        raise ValueError(form)
+
+    def check_then(self, recv, args, out, what):
+        """The property on one composition: an ill-typed request is refused."""
+        if self.problems is None:
+            return
+        from common import ty_key
+        scan, prev = ty_key(recv.cod), recv
+        for k, x in enumerate(args):
+            if ty_key(x.dom) != scan and prev.cod != x.dom:
+                self.problems.append((
+                    "illtyped_request_accepted:" + what,
+                    "%r.then(%s) was accepted although argument %d starts on %r and what comes "
+                    "before it ends on %r; it handed back %r : %r -> %r" % (
+                        recv, ", ".join(map(repr, args)), k, x.dom, prev.cod, out, out.dom,
+                        out.cod)))
+                return
+            scan, prev = ty_key(x.cod), x
+        if ty_key(out.dom) != ty_key(recv.dom) or ty_key(out.cod) != scan:
+            self.problems.append((
+                "composite_with_other_ends:" + what,
+                "%r.then(%s) handed back %r : %r -> %r" % (
+                    recv, ", ".join(map(repr, args)), out, out.dom, out.cod)))
 
     def box(self, b):
         m = self.m
@@ -91,9 +131,20 @@ class Family:
         if op == "id":
             return m.Id(self.ty(e[1]))
         if op == "then":
-            return self.run(e[1]) >> self.run(e[2])
+            a, b = self.run(e[1]), self.run(e[2])
+            out = a >> b
+            self.check_then(a, [b], out, "then")
+            return out
         if op == "tensor":
             return self.run(e[1]) @ self.run(e[2])
+        if op in ("thenN", "tensorN"):
+            _, form, recv_e, args_e = e
+            recv = self.run(recv_e)
+            args = [self.run(a) for a in args_e]
+            out = self.nary("then" if op == "thenN" else "tensor", form, recv, args)
+            if op == "thenN":
+                self.check_then(recv, args, out, "thenN")
+            return out
         if op == "dagger":
             return self.run(e[1])[::-1]
         if op == "slice":
@@ -155,6 +206,9 @@ def tok_expr(e):
         return "id " + tok_ty(e[1])
     if op in ("then", "tensor"):
         return "%s %s %s" % (op, tok_expr(e[1]), tok_expr(e[2]))
+    if op in ("thenN", "tensorN"):      # the calling form is not the model's business
+        return "%s %s %s" % (op, tok_expr(e[2]), " ".join(
+            [str(len(e[3]))] + [tok_expr(a) for a in e[3]]))
     if op == "dagger":
         return "dagger " + tok_expr(e[1])
     if op == "slice":
@@ -282,12 +336,19 @@ def expr_size(e):
         return len(e[3])
     if e[0] in ("box",):
         return 1
+    if e[0] in ("thenN", "tensorN"):
+        return expr_size(e[2]) + sum(expr_size(x) for x in e[3])
     return sum(expr_size(x) for x in e[1:] if isinstance(x, tuple))
 
 
 def expr_ops(e, acc=None):
     acc = [] if acc is None else acc
     acc.append(e[0])
+    if e[0] in ("thenN", "tensorN"):
+        expr_ops(e[2], acc)
+        for x in e[3]:
+            expr_ops(x, acc)
+        return acc
     for x in e[1:]:
         if isinstance(x, tuple):
             expr_ops(x, acc)
